@@ -292,7 +292,13 @@ static cJSON_bool decode_array_index_from_pointer(const unsigned char * const po
 
     for (position = 0; (pointer[position] >= '0') && (pointer[position] <= '9'); position++)
     {
-        parsed_index = (10 * parsed_index) + (size_t)(pointer[position] - '0');
+        const size_t digit = (size_t)(pointer[position] - '0');
+        if (parsed_index > ((((size_t)-1) - digit) / 10))
+        {
+            /* the index does not fit into a size_t, no array is that long */
+            return 0;
+        }
+        parsed_index = (10 * parsed_index) + digit;
 
     }
 
